@@ -77,6 +77,7 @@ func VerifC08Window() {
 		}
 		data = data[:end]
 	}
+	vrt.C09Guard(data, 1)
 	err := NewDecoder().Decode(data)
 	vrt.Out("err", c08b2i(err != nil))
 }
@@ -100,6 +101,7 @@ func VerifC08ParserWindow() {
 		}
 		data = data[:end]
 	}
+	vrt.C09Guard(data, 1)
 	_, err := codestream.NewParser(data).Parse()
 	vrt.Out("err", c08b2i(err != nil))
 }
